@@ -818,6 +818,22 @@ func (x *Exec) compileCall(env *Env, e *SCall) Value {
 		x.declareFun("brune", "(declare-fun brune ((Array Int Int) Int Int) Int)")
 		x.declareFun("brunelen", "(declare-fun brunelen ((Array Int Int) Int Int) Int)")
 		return TV{App(fn, SInt, Select(h, Sel("s-ref", a.T)), Add(Sel("s-off", a.T), i.T), Sub(Sel("s-len", a.T), i.T)), ty}
+	case "apply":
+		// apply(f, a, b, …): the result of calling function value f (single result)
+		f := argTV(0)
+		sig, ok := f.Ty.Underlying().(*types.Signature)
+		if !ok {
+			env.fail("apply() needs a function value")
+		}
+		var ats []*Term
+		for i := 1; i < len(e.Args); i++ {
+			ats = append(ats, argTV(i).T)
+		}
+		rs, ok := x.dynApp(sig, f.T, ats)
+		if !ok {
+			env.fail("apply(): the signature %s is not scalar", sig)
+		}
+		return TV{rs[0], sig.Results().At(0).Type()}
 	case "sprintf", "errorf":
 		var ops []*Term
 		for i := range e.Args {
